@@ -632,8 +632,9 @@ func (f *facts) flowTables(conn, tr *ast.File) string {
 			}
 			return ""
 		}
-		rows, unk := f.runScenariosFixed(fd, []string{"dialFailed", "sasl", "splitFailed", "authFailed"},
-			map[string]bool{"hasTimeout": false, "noDeadline": true, "ctxHasDeadline": true}, nil, classify, effect)
+		// ctxHasDeadline is a dimension of its own: what the dial does must not depend on it (only the deadline bookkeeping may)
+		rows, unk := f.runScenariosFixed(fd, []string{"dialFailed", "sasl", "splitFailed", "authFailed", "ctxHasDeadline"},
+			map[string]bool{"hasTimeout": false, "noDeadline": true}, nil, classify, effect)
 		emit("dialerConnectFlow", rows, unk)
 	}
 	if fd := findFunc(tr, "connGroup", "connect"); fd != nil {
